@@ -9,6 +9,7 @@ import (
 	"io"
 	"net/http"
 	"reflect"
+	"regexp"
 	"strings"
 	"sync/atomic"
 
@@ -162,6 +163,29 @@ var Ops = map[string]Op{
 		openapi3filter.UnregisterBodyEncoder(ct)
 		return fmt.Sprint("registered=", enc != nil)
 	}},
+}
+
+// PatternOp validates "ABC" against a string schema of its own whose pattern text is unique to n, with the default
+// regular-expression engine (rejects) or with a case-insensitive engine given for this call (accepts). The two
+// invocations of a scenario share nothing but the pattern text - and whatever the library keeps per pattern text.
+func PatternOp(n int, otherEngine bool) Op {
+	name := "PAT-default"
+	if otherEngine {
+		name = "PAT-other-engine"
+	}
+	return Op{name, func(s *Shared, b func()) string {
+		schema := openapi3.NewStringSchema().WithPattern(fmt.Sprintf("^[a-z]+$|^verif%d$", n))
+		var opts []openapi3.SchemaValidationOption
+		if otherEngine {
+			opts = append(opts, openapi3.SetSchemaRegexCompiler(func(expr string) (openapi3.RegexMatcher, error) {
+				return regexp.Compile("(?i)" + expr)
+			}))
+		}
+		if err := schema.VisitJSON("ABC", opts...); err != nil {
+			return "pattern rejects"
+		}
+		return "pattern accepts"
+	}}
 }
 
 // GenOp generates a schema for the n-th fresh struct type.
